@@ -601,16 +601,24 @@ Qed.
 
 Lemma exec_ulist_conf : forall sc st ps tid pa tpth tfl its o deleg st' out,
   Conforms st -> get_at st ps = Some (Node tid KList pa tpth tfl its) -> scope_ok P sc -> op_tfree o -> rebind_like o = false ->
+  (forall e mn mx m, spec_at ev (f_spec tfl) <> Some (Typing.SList e mn mx m)) ->
   (forall s o', deleg = (s, o') -> exec_op (op_rv o) = true -> Conforms s) ->
   exec_ulist q false ev sc st ps tfl its o deleg = (st', out) -> Conforms st'.
 Proof.
-  intros sc st ps tid pa tpth tfl its o deleg st' out C G S OF RL DG E.
+  intros sc st ps tid pa tpth tfl its o deleg st' out C G S OF RL US DG E.
   destruct (target_children _ _ _ _ _ _ _ _ _ _ C G) as (NO & F).
   unfold op_tfree in OF.
   destruct o; simpl in RL; try discriminate; unfold exec_ulist in E; simpl in OF;
     try (eapply DG; [exact E|reflexivity]; fail);
     try (destruct (treats_as_sealed sc tfl); [inv E; auto; fail|]).
   - eapply textend_core_conf; eauto.
+  - (* LRemove *)
+    destruct (find_index _ its) as [idx|]; [|inv E; auto].
+    destruct (treats_as_sealed sc tfl); [inv E; auto|].
+    destruct (negb (writable_via_accessors sc tfl)); [inv E; auto|]. inv E.
+    eapply ldel_core_conf; eauto. eapply (node_ok_any ev P tid KList pa tpth tfl its); [|exact NO].
+    unfold checks_members, node_spec. simpl.
+    destruct (spec_at ev (f_spec tfl)) as [sp|] eqn:SA; auto. destruct sp; auto. exfalso. exact (US _ _ _ _ eq_refl).
   - eapply textend_core_conf; eauto.
   - destruct (n <=? 0) eqn:N0.
     + eapply DG; [exact E|]. simpl. exact N0.
@@ -818,9 +826,9 @@ Proof.
       * eapply DGU; eauto. eapply exec_op_nonlist; eauto. congruence.
     + (* a list *)
       destruct (spec_at ev (f_spec tfl)) as [sp|] eqn:SA.
-      * destruct sp; try (eapply exec_ulist_conf; eauto; fail).
+      * destruct sp; try (eapply exec_ulist_conf; eauto; congruence).
         eapply exec_list_conf; eauto. intros pvs ->. simpl in RL. discriminate.
-      * eapply exec_ulist_conf; eauto.
+      * eapply exec_ulist_conf; eauto. congruence.
     + (* an object *)
       destruct (spec_at ev (f_spec tfl)) as [sp|] eqn:SA.
       * destruct sp; try (eapply DGU; eauto; eapply exec_op_nonlist; eauto; congruence).
